@@ -23,6 +23,7 @@ def known_finding(known, prop, msg):
 def run_strs(ctx, sequences, ops, sweeps, decodes, seed_offset=0, label="general", oracle_props=None):
     """returns True if the engine ran"""
     oracle_props = oracle_props or [ctx.prop]
+    sequences, decodes = sequences * ctx.scale(), decodes * ctx.scale()     # change-directed deepening
     ok, log = cargo_build(ctx, ["strs"])
     if not any(o["name"] == "build:harness-strs" for o in ctx.obligations):
         ctx.add_ob("build:harness-strs", "build", ok, "" if ok else log[-3000:])
